@@ -216,4 +216,39 @@ theorem read_render_rat (c d : Interval Rat) (s : List Char) (hp : c.proper = tr
     readDescription d s = .done ⟨c.lo, c.hi, c.inclLo, c.inclHi, d.prec⟩ false :=
   read_render _ numLaw_rat c d s hp hdbl hs
 
+/-! ## the number texts of the `Rat` interpretation -/
+
+/-- the recogniser deciding whether a bound text makes `readDescription` raise is C17's
+transcription of `TextTools::isDecimalNumber(s, '.', 'e')` (the repaired one: at least one mantissa
+digit), so C17's grammar theorem (`Bpp.C17.isDecimalNumber_iff`) says which texts are accepted -/
+theorem isDecimalNumber_is_c17 (l : List Char) :
+    isDecimalNumber l = Bpp.Text.Number.isDecimalNumber '.' 'e' l := isDecimalNumber_eq_number l
+
+/-- a text `toDouble` refuses is refused by the model: a sign, a separator or an exponent alone
+(the texts the repair of the recognisers changed), blanks inside, two separators …; the lower
+bound `-` makes `readDescription` raise with only the flags written -/
+theorem parseRat_rejects_digitless :
+    parseRat ['-'] = .reject ∧ parseRat ['.'] = .reject ∧ parseRat ['-', '.'] = .reject ∧
+    parseRat ['e', '5'] = .reject ∧ parseRat ['1', 'e'] = .reject ∧ parseRat ['1', '.', '2', '.', '3'] = .reject := by
+  refine ⟨?_, ?_, ?_, ?_, ?_, ?_⟩ <;> (unfold parseRat; rw [if_pos (by decide)])
+
+theorem read_digitless_raises (d : Interval Rat) :
+    readDescription d ['[', '-', ';', '1', ']'] = .done { d with inclLo := true, inclHi := true } true := by
+  have h : (NumText.parseNum ['-'] : NumParse Rat) = .reject := parseRat_rejects_digitless.1
+  have e1 : findSemi ['[', '-', ';', '1', ']'] = some 2 := by decide
+  have e2 : findBracket1 ['[', '-', ';', '1', ']'] = some 4 := by decide
+  have e3 : trim ['-'] = ['-'] := by decide
+  unfold readDescription
+  rw [e1, e2]
+  simp [readCore, h, e3]
+
+/-- beyond plain decimals: an accepted text in exponent / short form whose exact value is a double
+is read to that value (`1e2` = 100, `25e-1` = 5/2, `.5` = 1/2, `-1.` = -1); one whose value is not
+a double (`0.1`, `1e-3`: the library's answer is libc's rounding of it) is `unmodelled` -/
+theorem parseRat_beyond_plain :
+    parseRat ['1', 'e', '2'] = .ok 100 ∧ parseRat ['2', '5', 'e', '-', '1'] = .ok (5 / 2) ∧
+    parseRat ['.', '5'] = .ok (1 / 2) ∧ parseRat ['-', '1', '.'] = .ok (-1) ∧
+    parseRat ['0', '.', '1'] = .unmodelled ∧ parseRat ['1', 'e', '-', '3'] = .unmodelled := by
+  refine ⟨?_, ?_, ?_, ?_, ?_, ?_⟩ <;> decide +kernel
+
 end Bpp.C01
